@@ -281,19 +281,36 @@ func runC15(c *fw.Ctx) {
 				}
 				<-all
 			}
+			// element values: distinct numbers, equal numbers, or ONE container instance / a few instances stored at many
+			// positions (elements are elements: equal or identical values do not make their callbacks wait for each other)
+			shape := r.Intn(4)
+			a, b := at.NewObject("row", 1), at.NewList("row")
+			valueOf := func(j int) any {
+				switch shape {
+				case 0:
+					return j
+				case 1:
+					return 7
+				case 2:
+					return a
+				default:
+					return []any{a, b, j}[j%3]
+				}
+			}
 			if onList {
 				vals := make([]any, n)
 				for j := range vals {
-					vals[j] = j
+					vals[j] = valueOf(j)
 				}
 				at.NewList(vals...).ForEachAsync(func(int, any) { body() })
 			} else {
 				o := at.NewObject()
 				for j := 0; j < n; j++ {
-					o.Set(fmt.Sprintf("k%d", j), j)
+					o.Set(fmt.Sprintf("k%d", j), valueOf(j))
 				}
 				o.ForEachAsync(func(string, any) { body() })
 			}
+			c.Count(fmt.Sprintf("rendezvous_value_shape/%d", shape))
 			c.Count("rendezvous_calls")
 			c.Max("max_simultaneously_active_callbacks", int64(n))
 			c.DistinctHash(spec.Hash(in()))
@@ -779,6 +796,18 @@ var readOps = []readOp{
 	{"List.TF", func(l at.List, o at.Object) string {
 		return fmt.Sprint(l.TypeOfTF("#0"), l.TypeOfTF("#1#0"), l.TypeOfTF("#2.i"), l.TypeOfTF("#99"), protectStr(func() string { return canonOfAny(l.GetTF("#0")) }))
 	}},
+	{"List.TF-through-nil-and-scalars", func(l at.List, o at.Object) string {
+		// reads whose path runs into a nil / scalar / missing slot: Undefined and a panic, and nothing is created on the way
+		n := l.Count()
+		var b strings.Builder
+		for _, p := range []string{fmt.Sprintf("#%d.k", n-2), fmt.Sprintf("#%d#0", n-3), fmt.Sprintf("#%d#0.x", n-2), "#0.k.k", fmt.Sprintf("#%d", n), fmt.Sprintf("#%d#1", n-1)} {
+			fmt.Fprint(&b, l.TypeOfTF(p), protectStr(func() string { return canonOfAny(l.GetTF(p)) }), ";")
+		}
+		for _, p := range []string{".nil.k", ".nil#0", ".padded#0.k", ".padded#1#0", ".str.k", ".int#0", ".padded#3"} {
+			fmt.Fprint(&b, o.TypeOfTF(p), protectStr(func() string { return canonOfAny(o.GetTF(p)) }), ";")
+		}
+		return b.String()
+	}},
 	{"List.numeric", func(l at.List, o at.Object) string {
 		return fmt.Sprint(l.IntSum(), l.IntProd(), l.IntMin(), l.IntMax(), l.Count(), l.Empty(), l.AllInts(), l.AllNumeric(), l.Contains(1), l.IndexOf(2))
 	}},
@@ -865,7 +894,8 @@ func c15Readers(c *fw.Ctx, r *rng.R) {
 			l, how := buildReceiverList(rr, vv)
 			shared := at.NewList(1, "x", 2.5)
 			l.Add(shared) // a nested list that also sits in the object (shared child)
-			o := at.NewObject("nested", at.NewObject("list", at.NewList(1, 2, 3)), "shared", shared, "str", "s", "int", 1)
+			l.SetTF(fmt.Sprintf("#%d", l.Count()+2), "behind nil padding") // nil slots written by the padding of SetTF
+			o := at.NewObject("nested", at.NewObject("list", at.NewList(1, 2, 3)), "shared", shared, "str", "s", "int", 1, "nil", nil, "padded", at.NewList().SetTF("#2", 1))
 			for i, v := range vv {
 				o.Set(fmt.Sprintf("key%02d", i), v)
 			}
